@@ -17,6 +17,9 @@
 #ifndef VP_FT
 #define VP_FT int
 #endif
+#ifndef VP_BLOCKMAX
+#define VP_BLOCKMAX 0
+#endif
 struct Opt : Gudhi::Simplex_tree_options_default { typedef VP_FT Filtration_value; static const bool link_nodes_by_label = true; };
 typedef Gudhi::Simplex_tree<Opt> ST; typedef VP_FT FV;
 enum { N = VP_N, NS = 1 << VP_N, NE = VP_N * (VP_N - 1) / 2 };
@@ -34,8 +37,17 @@ static void compare(ST& t, const bool* present, const FV* val, const char* lm, c
 }
 extern "C" void harness() {
   { int e = 0; for (int i = 0; i < N; i++) for (int j = i + 1; j < N; j++) { eu[e] = i; ev[e] = j; e++; } }
+#ifdef VP_COMPLETE
+  int w[NE]; for (int e = 0; e < NE; e++) w[e] = 1;                              // complete graph, unit weights: the blocked set is the variable
+#else
   int w[NE]; for (int e = 0; e < NE; e++) w[e] = vp_int("w", 0, VP_WMAX);      // 0 = absent
-  int vv[N]; for (int i = 0; i < N; i++) vv[i] = vp_int("v", 0, 1);              // vertex values (edges are at least as late as their vertices)
+#endif
+#ifdef VP_COMPLETE
+  int vv[N]; for (int i = 0; i < N; i++) vv[i] = 0;
+#else
+  int vv[N]; for (int i = 0; i < N; i++) vv[i] = vp_int("v", 0, 1);
+#endif
+  (void)0;              // vertex values (edges are at least as late as their vertices)
   for (int e = 0; e < NE; e++) if (w[e]) vp_assume(w[e] >= vv[eu[e]] && w[e] >= vv[ev[e]]);
   int dmax = vp_fork_int(vp_int("dim", 1, N - 1));
   bool present[NS]; FV val[NS];
@@ -51,7 +63,7 @@ extern "C" void harness() {
     b.expansion_with_blockers(dmax, [](ST::Simplex_handle) { return false; }); compare(b, present, val, "never-blocking expansion: membership", "never-blocking expansion: value"); vp_assert(a == b, "one-shot and never-blocking expansions give equal trees"); }
 #ifdef VP_BLOCK
   // ---- route 3: a blocking oracle = a symbolic set of vertex sets with >= 3 vertices; result = largest subcomplex of the clique complex with no blocked simplex
-  { bool blocked[NS]; for (int m = 1; m < NS; m++) blocked[m] = pcnt(m) >= 3 && vp_int("blk", 0, 1) != 0;
+  { bool blocked[NS]; for (int m = 1; m < NS; m++) blocked[m] = pcnt(m) >= 3 && (VP_BLOCKMAX == 0 || pcnt(m) <= VP_BLOCKMAX) && vp_int("blk", 0, 1) != 0;
     ST b; for (int i = 0; i < N; i++) b.insert_simplex(word(1 << i), (FV)vv[i]); for (int e = 0; e < NE; e++) if (w[e]) b.insert_simplex(word(1 << eu[e] | 1 << ev[e]), (FV)w[e]);
     b.expansion_with_blockers(dmax, [&](ST::Simplex_handle sh) { int m = 0; for (auto v : b.simplex_vertex_range(sh)) for (int i = 0; i < N; i++) if (label[i] == v) m |= 1 << i; return blocked[m]; });
     bool p2[NS]; for (int m = 1; m < NS; m++) { p2[m] = present[m]; for (int s = 1; s < NS; s++) if ((s & m) == s && blocked[s]) p2[m] = false; }
